@@ -236,6 +236,44 @@ Definition Sph_fitV (o:scopt) (q:Vec3 T) (V:SV) : Vec3 T :=
   let R := Sph_R o q in let w := fst V in
   (sc_s0 o * v3_2 w, sc_s1 o * v3_1 (m33_Tmulv K R (v3_0 w, v3_1 w, 0)), sc_s2 o * v3_dot K (snd V) (Sph_axis o R)).
 Definition Sph_fitT (o:scopt) (q:Vec3 T) (p:Vec3 T) : T := sc_s2 o * v3_dot K p (Sph_axis o (Sph_R o q)).
+
+(** ** Partial fits (setQToFitRotation / setQToFitTranslation / setUToFitAngularVelocity / setUToFitLinearVelocity),
+    as implemented per mobilizer; each returns the updated coordinates / speeds given the current ones *)
+(** Rotation::convertTwoAxesBodyFixedRotationToTwoAngles(axis i, axis j) with k the third axis; [neg] = reverse cyclical *)
+Definition two_angles (i j k:nat) (neg:bool) (R:Mat33 T) : Vec2 T :=
+  let two := 1 + 1 in
+  let sgn (x:T) : T := if nltb K 0 x then 1 else nopp K 1 in
+  let s1d := m33_e R k j in let c1d := m33_e R j j in let s2d := m33_e R i k in let c2d := m33_e R i i in
+  let s1 := (s1d + sgn s1d * nsqrt K (m33_e R j i * m33_e R j i + m33_e R j k * m33_e R j k)) / two in
+  let c1 := (c1d + sgn c1d * nsqrt K (m33_e R k i * m33_e R k i + m33_e R k k * m33_e R k k)) / two in
+  let s2 := (s2d + sgn s2d * nsqrt K (m33_e R j i * m33_e R j i + m33_e R k i * m33_e R k i)) / two in
+  let c2 := (c2d + sgn c2d * nsqrt K (m33_e R j k * m33_e R j k + m33_e R k k * m33_e R k k)) / two in
+  let t1 := natan2 K s1 c1 in let t2 := natan2 K s2 c2 in
+  if neg then (- t1, - t2) else (t1, t2).
+Definition Universal_fitR (R:Mat33 T) : Vec2 T := two_angles 0 1 2 false R.
+Definition Sph_fitR (o:scopt) (R:Mat33 T) : Vec2 T :=
+  let a := two_angles 2 1 0 true R in (sc_s0 o * (fst a - sc_az0 o), sc_s1 o * (snd a - sc_ze0 o)).
+(** Cylinder / Planar / Screw: the rotation fit sets the angle, the translation fit the translational coordinates *)
+Definition Cylinder_fitR (R:Mat33 T) (q:Vec2 T) : Vec2 T := (zangle R, snd q).
+Definition Cylinder_fitT (p:Vec3 T) (q:Vec2 T) : Vec2 T := (fst q, v3_2 p).
+Definition Cylinder_fitW (w:Vec3 T) (u:Vec2 T) : Vec2 T := (v3_2 w, snd u).
+Definition Cylinder_fitLV (v:Vec3 T) (u:Vec2 T) : Vec2 T := (fst u, v3_2 v).
+Definition Planar_fitR (R:Mat33 T) (q:Vec3 T) : Vec3 T := (zangle R, v3_1 q, v3_2 q).
+Definition Planar_fitT (p:Vec3 T) (q:Vec3 T) : Vec3 T := (v3_0 q, v3_0 p, v3_1 p).
+Definition Planar_fitW (w:Vec3 T) (u:Vec3 T) : Vec3 T := (v3_2 w, v3_1 u, v3_2 u).
+Definition Planar_fitLV (v:Vec3 T) (u:Vec3 T) : Vec3 T := (v3_0 u, v3_0 v, v3_1 v).
+Definition Screw_fitR (R:Mat33 T) : T := zangle R.
+(** BendStretch: angular fit u0 = w_z; linear fit u1 = (R^T v)_x and (stretch <> 0) u0 = (R^T v)_y / stretch *)
+Definition BendStretch_fitW (w:Vec3 T) (u:Vec2 T) : Vec2 T := (v3_2 w, snd u).
+Definition BendStretch_fitLV (q:Vec2 T) (v:Vec3 T) : Vec2 T := BendStretch_fitV q (o3, v).
+(** Ellipsoid translation fit: direction e = p/|p|, latitude atan2(-e_y,e_z), longitude atan2(e_x,e_z), rotation
+    = space-fixed x(latitude) then y(longitude), then the current spin about Mz *)
+Definition Ell_latlong (e:Vec3 T) : Vec2 T := (natan2 K (- v3_1 e) (v3_2 e), natan2 K (v3_0 e) (v3_2 e)).
+Definition Ell_fitT_R (spin:T) (p:Vec3 T) : Mat33 T :=
+  let e := v3_scale K (1 / v3_norm K p) p in let ll := Ell_latlong e in
+  m33_mul K (m33_mul K (RotY (snd ll)) (RotX (fst ll))) (RotZ spin).
+(** Ellipsoid linear-velocity fit (written for a sphere): x,y of w in M from v, z of w in M kept from the current u *)
+Definition Ell_fitLV (r:Vec3 T) (R:Mat33 T) (ucur v:Vec3 T) : Vec3 T := Ell_fitV_prefix r R (ucur, v).
 End Cat.
 
 (** ** list-based dispatch for the correspondence runs (coordinates and speeds as lists, as in the State) *)
@@ -370,4 +408,74 @@ Definition mob_fitU (m:mspec) (q:list T) (V:SpatialVec T) : option (list T) :=
   | MSphericalCoords => Some (of3 (Sph_fitV K (sc_of (m_par m)) (l3 q 0) V))
   | MEllipsoid => Some (of3 (Ell_fitU V))
   end.
+
+(** ** partial fits by type on coordinate / speed lists (as-defined mobilizer; every type) *)
+Definition tl1 (l:list T) : list T := skipn 1 l.
+Definition mob_fitR (m:mspec) (R:Mat33 T) (q:list T) : list T :=
+  match m_type m with
+  | MWeld | MSlider | MTranslation => q
+  | MPin | MScrew => zangle K R :: nil
+  | MUniversal => of2 (Universal_fitR K R)
+  | MCylinder | MBendStretch | MPlanar => zangle K R :: tl1 q
+  | MGimbal => of3 (xyz_angles K R)
+  | MBushing => of3 (xyz_angles K R) ++ of3 (l3 q 3)
+  | MBall | MLineOrientation | MEllipsoid => rotfit m R
+  | MFree | MFreeLine => rotfit m R ++ of3 (l3 q (nrot m))
+  | MSphericalCoords => of2 (Sph_fitR K (sc_of (m_par m)) R) ++ (nth0 q 2 :: nil)
+  end.
+Definition ell_spin (m:mspec) (q:list T) : T :=
+  if usesQuat m then v3_2 (xyz_angles K (quatR K (l4 q))) else nth0 q 2.
+Definition mob_fitT (m:mspec) (p:Vec3 T) (q:list T) : list T :=
+  match m_type m with
+  | MWeld | MPin | MUniversal | MGimbal | MBall | MLineOrientation => q
+  | MSlider => v3_0 p :: nil
+  | MTranslation => of3 p
+  | MScrew => Screw_fitT K (nth0 (m_par m) 0) p :: nil
+  | MCylinder => nth0 q 0 :: v3_2 p :: nil
+  | MBendStretch => of2 (BendStretch_fitT K (nth0 q 0) p)
+  | MPlanar => nth0 q 0 :: v3_0 p :: v3_1 p :: nil
+  | MBushing => of3 (l3 q 0) ++ of3 p
+  | MFree | MFreeLine => firstn (nrot m) q ++ of3 p
+  | MSphericalCoords => nth0 q 0 :: nth0 q 1 :: Sph_fitT K (sc_of (m_par m)) (l3 q 0) p :: nil
+  | MEllipsoid => rotfit m (Ell_fitT_R K (ell_spin m q) p)
+  end.
+Definition mob_fitW (m:mspec) (q:list T) (w:Vec3 T) (u:list T) : list T :=
+  let V : SpatialVec T := (w, o3 K) in
+  match m_type m with
+  | MWeld | MSlider | MTranslation => u
+  | MPin | MScrew => v3_2 w :: nil
+  | MUniversal => of2 (Universal_fitW K (nth0 q 0, nth0 q 1) V)
+  | MCylinder | MBendStretch | MPlanar => v3_2 w :: tl1 u
+  | MGimbal => of3 (Gimbal_fitW K (l3 q 0) V)
+  | MBushing => of3 (Gimbal_fitW K (l3 q 0) V) ++ of3 (l3 u 3)
+  | MBall | MEllipsoid => of3 w
+  | MFree => of3 w ++ of3 (l3 u 3)
+  | MLineOrientation => of2 (Line_fitW K (ballR m q) V)
+  | MFreeLine => of2 (Line_fitW K (ballR m q) V) ++ of3 (l3 u 2)
+  | MSphericalCoords => let f := Sph_fitV K (sc_of (m_par m)) (l3 q 0) V in v3_0 f :: v3_1 f :: nth0 u 2 :: nil
+  end.
+Definition mob_fitLV (m:mspec) (q:list T) (v:Vec3 T) (u:list T) : list T :=
+  let V : SpatialVec T := (o3 K, v) in
+  match m_type m with
+  | MWeld | MPin | MUniversal | MGimbal | MBall | MLineOrientation => u
+  | MSlider => v3_0 v :: nil
+  | MTranslation => of3 v
+  | MScrew => Screw_fitV K (nth0 (m_par m) 0) V :: nil
+  | MCylinder => nth0 u 0 :: v3_2 v :: nil
+  | MBendStretch => of2 (BendStretch_fitLV K (nth0 q 0, nth0 q 1) v)
+  | MPlanar => nth0 u 0 :: v3_0 v :: v3_1 v :: nil
+  | MBushing | MFree => of3 (l3 u 0) ++ of3 v
+  | MFreeLine => nth0 u 0 :: nth0 u 1 :: of3 v
+  | MSphericalCoords => nth0 u 0 :: nth0 u 1 :: v3_2 (Sph_fitV K (sc_of (m_par m)) (l3 q 0) V) :: nil
+  | MEllipsoid => of3 (Ell_fitLV K (l3 (m_par m) 0) (ballR m q) (l3 u 0) v)
+  end.
+(** the public entry points, including the reversal wrappers of RigidBodyNode.h (which use the CURRENT q to turn the
+    request around; the linear-velocity wrapper assumes zero angular velocity) *)
+Definition rep_fitR (m:mspec) (rev:bool) (R:Mat33 T) (q:list T) : list T := mob_fitR m (if rev then m33_T R else R) q.
+Definition rep_fitT (m:mspec) (rev:bool) (p:Vec3 T) (q:list T) : list T :=
+  mob_fitT m (if rev then m33_mulv K (fst (mob_X m q)) (v3_neg K p) else p) q.
+Definition rep_fitW (m:mspec) (rev:bool) (q:list T) (w:Vec3 T) (u:list T) : list T :=
+  mob_fitW m q (if rev then m33_mulv K (fst (mob_X m q)) (v3_neg K w) else w) u.
+Definition rep_fitLV (m:mspec) (rev:bool) (q:list T) (v:Vec3 T) (u:list T) : list T :=
+  mob_fitLV m q (if rev then v3_neg K (m33_mulv K (fst (mob_X m q)) v) else v) u.
 End Disp.
